@@ -208,9 +208,14 @@ func (fc *fallbackCache) Set(ctx context.Context, registry string, scheme Scheme
 		return "", err
 	}
 
-	return fc.secondary.Set(ctx, registry, scheme, key, func(ctx context.Context) (string, error) {
+	// the secondary cache ignores the key: a concurrent Set for another key of the
+	// same registry may be combined with this one, so its result is not returned
+	if _, err := fc.secondary.Set(ctx, registry, scheme, key, func(ctx context.Context) (string, error) {
 		return token, nil
-	})
+	}); err != nil {
+		return "", err
+	}
+	return token, nil
 }
 
 // NewSingleContextCache creates a host-based cache for optimizing the auth flow for non-compliant registries.
